@@ -38,8 +38,11 @@ def _field_regex(expr_src: str, spec: str, cname: str):
         return r"(?:0[1-9]|1[0-2])"
     if e == "day" and spec == "02g":
         return r"(?:0[1-9]|[12]\d|3[01])"
-    if e == "self.serial" and spec == "":
+    if e == "self.serial" and spec in ("", "d"):
         return r"-?\d+"
+    if e == "self.serial" and spec == "g":
+        # general format of an unbounded integer: six significant digits, exponent notation from 1e+06 on
+        return r"-?(?:\d{1,6}|\d(?:\.\d{1,5})?e\+\d\d+)"
     return None
 
 
